@@ -75,7 +75,7 @@ def compare(pid, case, mline, iline):
 
 FIXED_SEEN = []
 FIXED2_SEEN = []
-FIXED2_EXPECTED = "fixed sigconn M:x=22,r=27,seen=5,size=0,conn=0,after=1/0 C:x=32,r=27,size=0,conn=0 F:x=42,s=n=77,r=42,size=0"
+FIXED2_EXPECTED = "fixed sigconn M:x=22,r=27,seen=5,size=0,conn=0,after=1/0 C:x=32,r=27,size=0,conn=0 F:x=42,s=n=77,r=42,size=0 R:ref=1,cref=1,hideref=1,hidecref=1"
 FIXED_EXPECTED = "fixed slotref A:outer_nonempty=1,inner_empty=1 B:inner_empty=1,outer_empty=1,copy_empty=0 C:inner_empty=1,outer_empty=1 D:outer2_empty=1"
 
 
@@ -276,6 +276,12 @@ def directed_cases(pid, start):
             out.append(C(0, ("bind", 0, leaf, bounds), True, [], []))
             out.append(C(0, ("bind", -1, leaf, bounds), True, ["r"], [11]))
             out.append(C(0, ("bind", 1, leaf, bounds), True, ["r"], [11]))
+    # a functor / a slot / a trackable-derived object bound by value is visited like any other bound value
+    for kind in ("f", "s", "t"):
+        out.append(C(0, ("bind", -1, leaf, [(kind, 2)]), True, [], []))
+        out.append(C(0, ("bind", 0, leaf, [("v", 41), (kind, 1)]), True, ["r"], [11]))
+        out.append(C(0, ("hide", -1, ("bind", -1, leaf, [(kind, 3), ("r", 1)])), True, ["v"], [11]))
+        out.append(C(0, ("bind", -1, ("bind", -1, leaf, [(kind, 0)]), [("v", 9)]), True, [], []))
     # mem_fun with a method declared in the trackable class / inherited from a non-trackable base
     for inh in (0, 1):
         for cst in (0, 1):
